@@ -43,6 +43,7 @@ type Exec struct {
 	defSeen       map[ssa.Value]bool
 	finalCells    map[ssa.Value]Value
 	remembered    map[string]bool
+	rememberedInt map[string]bool
 	retEdge       string
 	// path replay of return regions (see planSplits)
 	splitJoin map[*ssa.BasicBlock]bool
@@ -227,6 +228,12 @@ func (e *Exec) Verify() (obls []*Obligation, err error) {
 		for _, sa := range e.fc.Asserts {
 			if sa.LetName != "" {
 				e.remembered[sa.LetName] = true
+				if sa.IntVal {
+					if e.rememberedInt == nil {
+						e.rememberedInt = map[string]bool{}
+					}
+					e.rememberedInt[sa.LetName] = true
+				}
 			}
 		}
 		env := e.newEnv(st, e.entry)
